@@ -50,13 +50,15 @@ let vecn l = Node (sp, List.map leaf l)
 (* fixed-size types: tree from exactly k doubles *)
 let fixed_tree ty (v : float list) : (float fval) tree = match ty with
   | "S" | "SF" -> leaf (List.hd (pad 1 v))
+  | "V3F" -> vecn (pad 3 v)
   | "C" -> vecn (pad 2 v)
   | "V3" | "R3" -> vecn (pad 3 v)
   | "V2V3" -> Node (sp, List.map vecn (chunks 3 (pad 6 v)))
   | "M23" -> Node (nl, List.map vecn (chunks 3 (pad 6 v)))
   | "M22" -> Node (nl, List.map vecn (chunks 2 (pad 4 v)))
   | _ -> failwith "type"
-let elem_of ty = match ty with "A" | "VEC" -> ("S", 1) | "AV3" | "VV3" -> ("V3", 3) | "AC" -> ("C", 2) | "AM22" -> ("M22", 4) | _ -> ("", 0)
+let is32 ty = List.mem ty ["SF"; "V3F"; "AF"; "VECF"]
+let elem_of ty = match ty with "A" | "VEC" -> ("S", 1) | "AF" | "VECF" -> ("SF", 1) | "AV3" | "VV3" -> ("V3", 3) | "AC" -> ("C", 2) | "AM22" -> ("M22", 4) | _ -> ("", 0)
 let rec flat (t : (float fval) tree) : float list = match t with Leaf x -> [unclass x] | Node (_, l) -> List.concat_map flat l
 
 let () =
@@ -89,8 +91,8 @@ let () =
                      | None -> Printf.printf "%s 0 0" (tohex (string_of_str s)))
      | "W" :: ty :: vs ->
          let v = List.map of_bits64 vs in
-         let (pr, pa, bits) = if ty = "SF" then (print32, parse32, bits32) else (print64, parse64, bits64) in
-         let v = if ty = "SF" then List.map to32 v else v in
+         let (pr, pa, bits) = if is32 ty then (print32, parse32, bits32) else (print64, parse64, bits64) in
+         let v = if is32 ty then List.map to32 v else v in
          let (ety, k) = elem_of ty in
          if k = 0 then begin
            let t = fixed_tree ty v in
@@ -115,7 +117,7 @@ let () =
           | "B" -> (match read_fixed conv_bool SLeaf (open_stream s) with
                     | Some (Leaf b, _) -> Printf.printf "1 %d " (if b then 1 else 0) | _ -> print_string "0 ")
           | _ ->
-            let (pa, bits) = if ty = "SF" then (parse32, bits32) else (parse64, bits64) in
+            let (pa, bits) = if is32 ty then (parse32, bits32) else (parse64, bits64) in
             let (ety, k) = elem_of ty in
             if k = 0 then
               (match read_fixed pa (shape_of (fixed_tree ty [])) (open_stream s) with
